@@ -27,6 +27,11 @@ def check (_lineNo : Nat) (line : String) : Verdict :=
     if alive != "1" then .oracle "agent died on the history: establishment, modification creating a PDR with a CHOOSE F-TEID, deletion"
     else if answered != "1" then .oracle "after the history establishment / modification creating a PDR with a CHOOSE F-TEID / deletion, an establishment with a CHOOSE F-TEID on another association is never answered (the receive loop hangs)"
     else .ok
+  | "assocresp" :: variant :: n :: "=>" :: alive :: served :: crash =>
+    if n = "0" then .bad "the agent sent no Association Setup Request to its configured peer"
+    else if alive != "1" then .oracle s!"agent died on the response ({variant}) to its own Association Setup Request: {" ".intercalate crash}"
+    else if served != "1" then .oracle s!"after the response ({variant}) to its own Association Setup Request the agent no longer sets up another association"
+    else .ok
   | ["other", ok] => if ok = "1" then .ok else .oracle "a valid Association Setup Request on another association was not processed normally"
   | "raw" :: _i :: "=>" :: alive :: hb :: crash =>
     if alive != "1" then .oracle s!"agent died on the raw datagram stream: {" ".intercalate crash}"
